@@ -147,8 +147,12 @@ def check_case(p, ctx):
             ctx.count("frame-with-zero-mean-speed(adimensional clause undefined)")
             if p["adim"]:
                 continue
-        b, av = call(fm.set_velocity_matrix, mesh, b_matrix="velocity", adimensional_velocity=p["adim"],
-                     velocity_normalization=p["vnorm"])
+        kw_v = {"adimensional_velocity": p["adim"], "velocity_normalization": p["vnorm"]}
+        if p["vnorm"] == 1 and p["lab_seeds"][0] % 2:
+            del kw_v["velocity_normalization"]         # documented defaults left out of the call
+            if not p["adim"]:
+                del kw_v["adimensional_velocity"]
+        b, av = call(fm.set_velocity_matrix, mesh, b_matrix="velocity", **kw_v)
         b = np.asarray(b, float).flatten()
         scale = (1.0 / mean_speed if p["adim"] else 1.0) * p["vnorm"]
         if p["adim"] and abs(av - mean_speed) > 1e-9 * mean_speed:
